@@ -39,6 +39,16 @@ def programs(seed, n, syms=gen.SYMS, kinds=("abelian", "fermionic"), tids=None):
                     n_out += 1
                     steps.append({"op": "construct", "in": ["t"], "out": [f"k{n_out}"],
                                   "args": dict(a, with_blocks=False)})
+        # two arrays from one block dictionary, then one of them scaled in place: the other still equals the reference
+        for cls in (("static", "dynamic") if sym != "Z4" else ("dynamic",)):
+            n_out += 2
+            steps.append({"op": "construct_shared", "in": ["t"], "out": [f"k{n_out - 1}", f"k{n_out}"], "args": dict(base, cls=cls)})
+            steps.append({"op": "ismul", "in": [f"k{n_out - 1}"], "out": [f"k{n_out - 1}"], "args": {"k": [3, 0]}})
+            steps.append(rel("same", "C16.constructed_arrays_independent", "t", f"k{n_out}"))
+            steps.append({"op": "fill_missing_blocks", "in": [f"k{n_out}"], "out": [f"k{n_out}"], "args": {}})
+            steps.append({"op": "ismul", "in": [f"k{n_out}"], "out": [f"k{n_out}"], "args": {"k": [2, 0]}})
+            steps.append({"op": "smul", "in": ["t"], "out": [f"t3_{n_out}"], "args": {"k": [3, 0]}})
+            steps.append(rel("same", "C16.constructed_arrays_independent.first", f"t3_{n_out}", f"k{n_out - 1}"))
         # dense round trip with the matching labels
         steps.append({"op": "to_dense", "in": ["t"], "out": ["dn"], "args": {}})
         labels = to_dense_labels(t)
